@@ -18,6 +18,23 @@ META = {
 from .coverage import coverage
 
 
+def order_rule(ctx, tag):
+    F, P, R = ctx.F, ctx.P, ctx.run
+    # expiry is processed before anything is written in an activation of the request stream
+    from .shape_common import run_jobs, server_chains, chain_name
+    rp = F.trait_method('Stream', 'server::Requests', 'poll_next')
+    chains = [c for c in server_chains(F) if len(c) <= (2 if ctx.tier == 'quick' else 3)]
+    res = run_jobs(F, [{'key': chain_name(ch), 'entry': rp.id, 'aut': ('custom', ExpiryFirstAut), 'chain': ch} for ch in chains])
+    for ch in chains:
+        r = res[chain_name(ch)]
+        R.count('states_explored', r['stats'].get('states', 0))
+        bad = [k for k in r['viol'] if k[0] == 'WRITE_BEFORE_EXPIRY_PROCESSED']
+        R.ob(tag, ('Requests<%s>::poll_next' % chain_name(ch), 'expired requests are forgotten before responses are written'), not bad,
+             'in every activation the deadline timers are polled before any response is handed to the transport, so a response buffered for a request whose deadline has passed is dropped, not transmitted',
+             sorted({s_ for k in bad for s_ in r['viol'][k]}))
+
+
+
 def run(ctx):
     F, P, R = ctx.F, ctx.P, ctx.run
     R.explanation = META['text']
@@ -96,19 +113,7 @@ def run(ctx):
     removal_pairing(ctx, 'C06.timers', 'server')
     # source coverage while blocked (E-SHAPE): known finding D5 for limiter chains
     coverage(ctx, 'C06.cover', ('T',))
-    # expiry is processed before anything is written in an activation of the request stream
-    from .shape_common import run_jobs, server_chains, chain_name
-    rp = F.trait_method('Stream', 'server::Requests', 'poll_next')
-    chains = [c for c in server_chains(F) if len(c) <= (2 if ctx.tier == 'quick' else 3)]
-    res = run_jobs(F, [{'key': chain_name(ch), 'entry': rp.id, 'aut': ('custom', ExpiryFirstAut), 'chain': ch} for ch in chains])
-    for ch in chains:
-        r = res[chain_name(ch)]
-        R.count('states_explored', r['stats'].get('states', 0))
-        bad = [k for k in r['viol'] if k[0] == 'WRITE_BEFORE_EXPIRY_PROCESSED']
-        R.ob('C06.order', ('Requests<%s>::poll_next' % chain_name(ch), 'expired requests are forgotten before responses are written'), not bad,
-             'in every activation the deadline timers are polled before any response is handed to the transport, so a response buffered for a request whose deadline has passed is dropped, not transmitted',
-             sorted({s_ for k in bad for s_ in r['viol'][k]}))
-
+    order_rule(ctx, 'C06.order')
 
 class ExpiryFirstAut:
     name = 'expiry_first'
